@@ -3,8 +3,10 @@ Model of the body state machines: `BodyStream::Once`, `ExactLenStream` (src/body
 `MultipartStream` (src/serving.rs), with `size_hint` / `is_end_stream`.
 
 An entity stream is a script: a list of events consumed one per poll.  After the list is
-exhausted the stream reports the end forever, and after `err` it reports the end forever
-(C20's proviso "the entity's own streams stay finished once they have finished or failed").
+exhausted the stream reports the end forever.  An `err` event is the stream failing once: what
+the script holds after it is what the stream yields when polled again (a transient failure);
+a stream that stays failed once it has failed — C20's proviso — is a script with nothing after
+its first `err` (`StaysFailed`), and theorems that need the proviso say so.
 -/
 import HttpServeModel.Model.Serve
 
@@ -39,6 +41,11 @@ def PollOut.dataLen : PollOut → Nat
   | .data bs => bs.length
   | _ => 0
 
+/-- "The entity's stream stays failed once it has failed": nothing follows an error in its
+script. (C20's proviso; `ChunkedReadFile` does not satisfy it — its stream retries the read.) -/
+def StaysFailed (script : List Ev) : Prop :=
+  ∀ pre post, script = pre ++ Ev.err :: post → post = []
+
 structure ExactLen where
   stream : List Ev
   remaining : Nat
@@ -51,7 +58,9 @@ def ExactLen.poll (s : ExactLen) : ExactLen × PollOut :=
     if s.remaining ≠ 0 then ({ s with remaining := 0 }, .errShort s.remaining)
     else (s, .end_)
   | .pending :: rest => ({ s with stream := rest }, .pending)
-  | .err :: _ => ({ s with stream := [] }, .errEntity)
+  -- the entity's error is passed through; whether the stream then stays failed is the entity's
+  -- business (`StaysFailed`), not something `ExactLenStream` enforces
+  | .err :: rest => ({ s with stream := rest }, .errEntity)
   | .chunk bs :: rest =>
     if bs.length ≤ s.remaining then
       ({ stream := rest, remaining := s.remaining - bs.length }, .data bs)
